@@ -44,11 +44,16 @@ func newKinCache() *kinCache {
 		formatsDefined = true
 		for f := range formatIDs {
 			ff := f
+			if ff == "ipv4" || ff == "ipv6" {
+				continue // kin-openapi's own validators below: the documented meaning, independent of goa's runtime
+			}
 			openapi3.DefineStringFormatValidator(ff, openapi3.NewCallbackValidator(func(s string) error {
 				return goa.ValidateFormat("value", s, goa.Format(ff))
 			}))
 		}
 	}
+	openapi3.DefineIPv4Format()
+	openapi3.DefineIPv6Format()
 	return &kinCache{docs: map[string]*kinDoc{}}
 }
 
